@@ -377,4 +377,45 @@ theorem compileDefs_nodup (cts : List Core.TypeDecl) :
         simp only [List.map_append]
         exact List.Perm.refl _
 
+
+/-! ## the capture guard re-enters at most once when the binders are in the used-names set -/
+
+theorem bindersOccurFree_var (binders : List String) (a : String) (ty : Core.Ty) :
+    bindersOccurFree binders (.var .cns ⟨a, 0⟩ ty) = binders.contains a := by
+  simp [bindersOccurFree, tfvTerm, bsetInsert]
+
+/-- In every real run the binders of a `let` / `case` are in the used-names set
+(`C02_used_set_covers_def`, and the set only grows).  Then the fresh covariable of the guard's
+`self.compile` is not a binder, the re-entered `compile_with_cont` takes the unguarded path, and
+the guard is exactly
+`if binders_occur_free(binders, c) { ⟨μa.core(a) | c⟩ } else { core(c) }`;
+in particular the fuel of `guardedLvl` is never exhausted. -/
+theorem guarded_eq_of_binders_used (binders : List String) (ty : Option Fun.Ty) (site : String)
+    (core : CwcFn) (c : Core.Term) (st : CompileState) (hb : ∀ x ∈ binders, x ∈ st.usedVars) :
+    guarded binders ty site core c st =
+      (if bindersOccurFree binders c then
+        match ty with
+        | none => .error (noTy site)
+        | some t =>
+          match core (.var .cns ⟨(freshCovar st).1, 0⟩ (compileTy t)) (freshCovar st).2 with
+          | .error e => .error e
+          | .ok (s, st1) =>
+            .ok (.cut (compileTy t) (.mu .prd ⟨(freshCovar st).1, 0⟩ (compileTy t) s) c, st1)
+      else core c st) := by
+  have hfresh : binders.contains (freshCovar st).1 = false := by
+    have : (freshCovar st).1 ∉ binders := fun h => freshName_not_mem _ _ (hb _ h)
+    simpa using this
+  unfold guarded
+  rw [guardedLvl_succ]
+  split
+  · cases ty with
+    | none => rfl
+    | some t =>
+      simp only [defaultCompile_eq, guardedLvl_succ, bindersOccurFree_var, hfresh]
+      simp only [Bool.false_eq_true, if_false]
+      cases core (.var .cns ⟨(freshCovar st).1, 0⟩ (compileTy t)) (freshCovar st).2 with
+      | error e => rfl
+      | ok r => rfl
+  · rfl
+
 end Scc.Fun2Core
